@@ -2,12 +2,13 @@ use crate::header::headers::OneOrMore;
 use crate::header::{ExtendValues, HeaderParse};
 use crate::parse::ParseCtx;
 use crate::print::{AppendCtx, Print, PrintCtx, UriContext};
-use crate::uri::params::{Params, CPS};
+use crate::uri::params::{Params, ParamsSpec, CPS};
 use crate::uri::NameAddr;
 use bytesstr::BytesStr;
 use internal::IResult;
 use nom::combinator::map;
 use nom::sequence::tuple;
+use percent_encoding::percent_encode;
 use std::fmt;
 
 /// Type which is being wrapped by [From] and [To]
@@ -69,7 +70,12 @@ impl Print for FromTo {
         ctx.uri = Some(UriContext::FromTo);
         self.uri.print(f, ctx)?;
         if let Some(tag) = &self.tag {
-            write!(f, ";tag={}", tag)?;
+            // the tag is read back through the parameter parser which decodes escapes
+            write!(
+                f,
+                ";tag={}",
+                percent_encode(tag.as_bytes(), <CPS as ParamsSpec>::ENCODE_SET())
+            )?;
         }
         self.params.print(f, ctx)
     }
